@@ -129,6 +129,14 @@ def run(c, chk):
                     if na and na[0] == res:
                         tested_at = k
                         break
+                if tested_at is None and p.retval != res and not (f.retty != 'void' and failure_value(f, p.retval) and p.retval is not None and p.retval[0] != 'call'):
+                    a = next((x for x in allow_ign if x['function'] == f.name and x['callee'] == e.name), None)
+                    key = 'untested:%s:%s' % (f.name, e.name)
+                    if a is None and key not in seen and f.name != 'cfg_parse_internal' or (a is None and key not in seen and f.name == 'cfg_parse_internal'):
+                        seen.add(key)
+                        site_bad.add(id(e.ins))
+                        chk.fail('R18.1', key, c.where(e.ins), '%s(): the result of %s() is never compared with NULL on a path that does not report failure: '
+                                 'an allocation failure is silently absorbed' % (f.name, e.name), witness=['path condition: ' + fp.cond_text(p, 6)] + [repr(x) for x in p.events[i:i + 5]])
                 for e2 in p.events[i + 1:]:
                     use = deref_use(e2, res)
                     if use and (tested_at is None or e2.seq <= tested_at):
